@@ -162,7 +162,11 @@ class Unit:
 
     def uname(self, f):
         """functions of common.vrs (the counter) are the same obligations in every unit that includes them"""
-        return "counter" if f.qual.startswith("AtomicCounter::") else self.name
+        if f.qual.startswith("AtomicCounter::"):
+            return "counter"
+        if self.name in ("adaptors", "wrappers") and (f.qual.startswith("ConIterOfSlice::") or f.qual.startswith("BufferedSlice::")):
+            return "slice"   # slice_core.vrs is re-verified in these units: same obligations as in the slice unit
+        return self.name
 
     def fn_at(self, line):
         best = None
@@ -371,12 +375,16 @@ def units_for(prop):
         txt = open(os.path.join(CONTRACTS, fn)).read()
         if "verus! {" not in txt:
             continue   # include files (common*.vrs) are not units
+        if "//@include slice_core.vrs" in txt and fn == "slice.vrs":
+            # (the adaptors / wrappers units re-verify slice_core.vrs as context only: they serve the properties of their OWN clauses,
+            # so that a change that stops cloned.rs / copied.rs / wrappers from being extracted does not make every property undecided)
+            txt += open(os.path.join(CONTRACTS, "slice_core.vrs")).read()
         if "//@include common_p.vrs" in txt:
             txt += open(os.path.join(CONTRACTS, "common_p.vrs")).read()
         if "//@include common.vrs" in txt:
             txt += open(os.path.join(CONTRACTS, "common.vrs")).read()
         tagged = any(prop in (m.group(2).split()) for m in (TAG_RE.search(l) for l in txt.split("\n")) if m)
-        if tagged or (prop in OVERFLOW_PROPS and "//@paste" in txt):
+        if tagged or (prop in OVERFLOW_PROPS and "//@paste" in txt and fn not in ("adaptors.vrs", "wrappers.vrs")):
             out.append(fn[:-4])
     return out
 
